@@ -1,0 +1,49 @@
+//go:build verif
+
+package fasthttp
+
+// Contracts for the path normalisation of uri.go / args.go, checked by /verif/gocv (comment-only; compiled to nothing).
+
+//@ func addLeadingSlash results r
+//@   property C26
+//@   modifies dst
+//@   requires len(dst) == 0
+//@   ensures[slash-unless-present] (len(src) == 0 || src[0] != '/') ? (len(r) == 1 && r[0] == '/') : len(r) == 0
+//@   ensures[grown] extends(r, dst)
+
+// decodeArgAppendNoPlus: only what normalizePath needs -- the result extends dst, and when dst is empty and src starts
+// with a literal (non-%) byte, that byte comes first.
+//@ func decodeArgAppendNoPlus results r
+//@   property C26
+//@   uses lemma byteTables
+//@   modifies dst
+//@   ensures[grown] extends(r, dst)
+//@   ensures[first-literal] len(src) > 0 && src[0] != '%' ==> len(r) > len(dst) && r[len(dst)] == src[0]
+//@   loop 1:
+//@     invariant[range] idx <= i && i <= len(src) + 2
+//@     invariant[grown] extends(dst, old(dst))
+//@     invariant[first] idx > 0 ==> len(dst) > len(old(dst)) && dst[len(old(dst))] == src[0]
+//@     invariant[first0] idx == 0 && i > idx ==> len(dst) > len(old(dst))
+
+//@ spec noSS(b []byte, n int) bool = forall j in [0,n-1): !(b[j] == '/' && b[j+1] == '/')
+//@ spec noSDS(b []byte, n int) bool = forall j in [0,n-2): !(b[j] == '/' && b[j+1] == '.' && b[j+2] == '/')
+//@ spec noSDDS(b []byte, n int) bool = forall j in [0,n-3): !(b[j] == '/' && b[j+1] == '.' && b[j+2] == '.' && b[j+3] == '/')
+
+// normalizePath: the result starts with '/', has no empty segment and no "." or ".." segment anywhere,
+// including at the end (the postconditions are the property statement; the loop invariants are the proof).
+//@ func normalizePath results r
+//@   property C26 C23
+//@   modifies *
+//@   ensures[leading-slash]    len(r) >= 1 && r[0] == '/'
+//@   ensures[no-empty-segment] noSS(r, len(r))
+//@   ensures[no-dot-segment]   noSDS(r, len(r)) && noSDDS(r, len(r))
+//@   ensures[no-trailing-dotdot] !hasSuffix(r, "/..")
+//@   ensures[no-trailing-dot]  !hasSuffix(r, "/.")
+//@   loop 1:
+//@     invariant[window] rgn(b) == rgn(dst) && off(b) >= off(dst) && off(b) - off(dst) + len(b) == bSize && 1 <= len(b) && bSize <= len(dst)
+//@     invariant[slash]  dst[0] == '/'
+//@     invariant[prefix] forall j in [0, off(b) - off(dst)): !(dst[j] == '/' && dst[j+1] == '/')
+//@   loop 2:
+//@     invariant[shape] 1 <= len(b) && b[0] == '/' && noSS(b, len(b))
+//@   loop 3:
+//@     invariant[shape] 1 <= len(b) && b[0] == '/' && noSS(b, len(b)) && noSDS(b, len(b))
